@@ -503,14 +503,14 @@ def opCompressibleStates : Op K := fun n a =>
   let B := PG.betaPG (at_ a 4)
   -- transformed surfaces (materialised)
   let tsurfs : List (VLM.Surf K) := surfs.map fun s =>
-    let arr := outMesh #[] s.nx s.ny (fun i j => PG.scaleGeom B (PG.toWind al be (s.mesh i j)))
+    let arr := outMesh #[] s.nx s.ny (PG.pgSurf al be B s).mesh
     { s with mesh := mesh arr 0 s.ny }
   -- normals of the ORIGINAL meshes, rotated and scaled (x * beta), not renormalised
   let nrmArr : Array (V3 K) := Id.run do
     let mut o : Array (V3 K) := #[]
     for s in surfs do
       for i in [0:s.nx-1] do
-        for j in [0:s.ny-1] do o := o.push (PG.scaleNormal B (PG.toWind al be (VLM.normal s i j)))
+        for j in [0:s.ny-1] do o := o.push (PG.pgNormal al be B s i j)
     return o
   let f : VLM.Flow K := { alpha := 0, beta := 0, v := at_ a 2, rho := at_ a 3, omega := 0, cg := 0, h := 0, rotational := false }
   let (_, forces, _, _) := vlmCore tsurfs f (some fun m => nrmArr.getD m 0)
